@@ -63,7 +63,7 @@ impl<I: Clone, S> Subj for Sub<I, S> {
     }
 }
 
-pub const KIND_NAMES: [&str; 15] = [
+pub const KIND_NAMES: [&str; 17] = [
     "pid",
     "command_pid_position",
     "command_pid_velocity",
@@ -79,6 +79,8 @@ pub const KIND_NAMES: [&str; 15] = [
     "position_to_state",
     "float_to_quantity",
     "quantity_to_float",
+    "moving_average_f32_long_window",
+    "moving_average_quantity_long_window",
 ];
 /// (reset on absent, reset on error, ignores absent, memoryless)
 pub fn policy(kind: usize) -> (bool, bool, bool, bool) {
@@ -87,6 +89,7 @@ pub fn policy(kind: usize) -> (bool, bool, bool, bool) {
         4..=7 => (false, true, true, false),
         8 | 9 => (true, true, false, false),
         10..=12 => (false, true, true, false),
+        15 | 16 => (false, true, true, false),
         _ => (true, true, false, true),
     }
 }
@@ -132,6 +135,8 @@ pub fn make(kind: usize) -> Box<dyn Subj> {
         12 => sub!(Quantity, |v| Quantity::new(v, MILLIMETER), |r| PositionToState::new(r)),
         13 => sub!(f32, |v| v, |r| FloatToQuantity::new(MILLIMETER_PER_SECOND, r)),
         14 => sub!(Quantity, |v| Quantity::new(v, MILLIMETER), |r| QuantityToFloat::new(r)),
+        15 => sub!(f32, |v| v, |r| MovingAverageStream::new(r, Time(1000 * S))),
+        16 => sub!(Quantity, |v| Quantity::new(v, MILLIMETER), |r| MovingAverageStream::new(r, Time(1000 * S))),
         _ => unreachable!(),
     }
 }
@@ -391,7 +396,7 @@ pub fn run(ctx: &Ctx) -> Vec<Eng> {
     let mut engines = Vec::new();
     let mut e1 = Eng::new(
         "c05-seqs",
-        "all histories of exactly `depth` events over {P(1), P(-2), N, E1, E2} (clock +1 s per event; every shorter history is a prefix and is judged at every step) for each of 15 stateful stream variants; oracles: no stale error, reset == fresh real stream on the suffix (bit equality of update and get results), deletion of ignored absent events, get purity with the input poisoned between calls, lazy-get run; non-trivial = history with a recovery after a reset event or with deleted absent events",
+        "all histories of exactly `depth` events over {P(1), P(-2), N, E1, E2} (clock +1 s per event; every shorter history is a prefix and is judged at every step) for each of 15 stateful stream variants (the deviation engine adds two moving averages whose window outlasts the whole history); oracles: no stale error, reset == fresh real stream on the suffix (bit equality of update and get results), deletion of ignored absent events, get purity with the input poisoned between calls, lazy-get run; non-trivial = history with a recovery after a reset event or with deleted absent events",
         &format!("depth {} => 5^{} histories x 15 streams", depth, depth),
     );
     for kind in 0..15 {
@@ -404,14 +409,14 @@ pub fn run(ctx: &Ctx) -> Vec<Eng> {
     }
     engines.push(e1);
 
-    let (hz, k) = if ctx.thorough { (48, 3) } else { (24, 2) };
+    let (hz, k) = if ctx.thorough { (48, 3) } else { (40, 2) };
     let mut e2 = Eng::new(
         "c05-deviations",
         "all histories of exactly H events that differ from the default stream (alternating present samples) in at most k positions, each deviation being one of {N, E1, E2, repeated value}; same oracles as c05-seqs; non-trivial as above",
-        &format!("H={} k={} x 15 streams", hz, k),
+        &format!("H={} k={} x 17 streams", hz, k),
     );
     let cases = deviation_cases(hz, 4, k);
-    for kind in 0..15 {
+    for kind in 0..17 {
         par_cases(&mut e2, &cases, budget, |c, e| {
             let mut h: Vec<Ev> = (0..hz).map(|i| Ev::P(i % 2)).collect();
             for &(p, a) in c {
